@@ -321,14 +321,34 @@ def f_copyspan(F, res):
             o = [x for _, x in outer_origins(F, f, rv["ops"][rv["fields"].index("span")], depth=2)]
             key = "%s|%s.span" % (f["path"], rv["adt"].split("::")[-1])
             w = where(f, s["line"])
-            good = bool(o) and all((x.kind == "call" and x.callee.endswith("::span")) or (x.kind == "arg" and x.proj and x.proj[-1] == ".span") or
-                                   (x.kind == "call" and x.term is not None and x.term.get("trait") == "tx3_lang::parsing::AstNode" and x.term.get("method") == "span") for x in o)
+            def _good(oo):
+                return bool(oo) and all((x.kind == "call" and x.callee.endswith("::span")) or (x.kind == "arg" and x.proj and x.proj[-1] == ".span") or
+                                        (x.kind == "call" and x.term is not None and x.term.get("trait") == "tx3_lang::parsing::AstNode" and x.term.get("method") == "span") for x in oo)
+            good = _good(o)
+            if not good:
+                # the span comes back from a helper of the crate (`let (size, span) = measure(value)?;`): read this function with
+                # that helper inlined
+                helpers = {x.callee for x in o if x.kind == "call" and x.callee in F.fns and F.fns[x.callee]["crate"] == "tx3_lang" and not F.fns[x.callee].get("impl_trait")}
+                if helpers:
+                    def want_h(t_, callee, helpers=helpers):
+                        return callee["path"] in helpers
+                    _KEEP19.append(want_h)
+                    fi = mir.inline_calls(F, f, want=want_h, depth=1)
+                    o2 = [x for _, x in outer_origins(F, fi, rv["ops"][rv["fields"].index("span")], depth=2)]
+                    # the helper's `None` / `Err` return joins the `?` in flow-insensitive provenance, but its payload is read
+                    # on the Continue / Some side only
+                    o2 = [x for x in o2 if not (x.kind == "agg" and x.rv.get("variant") in ("None", "Err") and any(p_ in (" as Continue", " as Some", " as Ok") for p_ in x.proj))]
+                    if _good(o2):
+                        good, o = True, o2
             if good:
                 res.add([ok("F-COPYSPAN", key, w, "span is a clone of the node's own span")])
             else:
                 res.add([finding("F-COPYSPAN", key, w, "diagnostic span does not come from the node it concerns: %r" % o)])
     res.count("analysis diagnostic constructions", n)
     res.floor("analysis diagnostic constructions", n, 4)
+
+
+_KEEP19 = []
 
 
 def f_frozen(F, res):
